@@ -11,21 +11,21 @@ import (
 )
 
 type Env struct {
-	vc      *VC
-	vars    map[string]Term
-	preVars map[string]Term // values of locals at loop head (pre())
-	cur     *Heap
-	old     *Heap
-	pre     *Heap
-	local   func(name string, pre bool) (Term, bool)
-	pkg     *types.Package
-	inPre   bool
-	depth   int
+	vc        *VC
+	vars      map[string]Term
+	preVars   map[string]Term // values of locals at loop head (pre())
+	cur       *Heap
+	old       *Heap
+	pre       *Heap
+	local     func(name string, pre bool) (Term, bool)
+	pkg       *types.Package
+	inPre     bool
+	depth     int
 	lastFacts []string
 	atLoop    func(k int) *Env
 	oldIsPre  bool // loop step/exit clauses: old() is the state at the loop head
 	entryMode bool
-	facts   *[]string // well-formedness facts about heap values read while evaluating (true of every Go heap)
+	facts     *[]string // well-formedness facts about heap values read while evaluating (true of every Go heap)
 }
 
 func (env *Env) fact(f string) {
@@ -920,6 +920,25 @@ func (env *Env) call(e *Expr) Term {
 		}
 		comp, _ := vc.elemComp(env.resolveType(tn))
 		return mk(eq(app("select", vc.get(env.heap(), comp), a.S), app("select", vc.get(oh, comp), a.S)), SBool)
+	case "rowSameSince":
+		// rowSameSince(k, T, a): the []T backing array with id a has the contents it had at the head of the
+		// enclosing loop k (the start of that loop's current iteration)
+		if len(e.Args) != 3 || e.Args[0].Op != "int" || env.atLoop == nil {
+			efail("rowSameSince(k, T, a) in a loop clause")
+		}
+		le := env.atLoop(int(e.Args[0].Int.Int64()))
+		if le == nil {
+			efail("rowSameSince: not an enclosing loop")
+		}
+		tn := e.Args[1].Type
+		if e.Args[1].Op == "ident" {
+			tn = e.Args[1].Name
+		} else if e.Args[1].Op == "sel" {
+			tn = e.Args[1].Args[0].Name + "." + e.Args[1].Name
+		}
+		a := argT(2)
+		comp, _ := vc.elemComp(env.resolveType(tn))
+		return mk(eq(app("select", vc.get(env.heap(), comp), a.S), app("select", vc.get(le.cur, comp), a.S)), SBool)
 	case "objRowUnchanged":
 		// the []object.Object backing array with id a has the same contents as in the old state
 		a := argT(0)
